@@ -1,7 +1,7 @@
 (* C10 — property theorems only (each closed by [exact] of a lemma of
    Proofs.v / the C02 development; statements pinned by the driver). *)
 From Yv Require Import Common.Base C02.Model C02.Spec C02.ProofsMono C02.ProofsSim C02.ProofsRev C02.Proofs
-  C10.Model C10.Spec C10.Proofs.
+  C10.Model C10.Spec C10.Proofs C10.ProofsX.
 
 (* Whether errexit applies is decided in the implementation by a dynamic test
    on the runtime stack (option on and no Condition frame anywhere); the
@@ -81,6 +81,68 @@ Theorem exit_trap_exactly_once : forall k st p n o,
   count_key k (fst o) = 1.
 Proof. exact exit_trap_once_lemma. Qed.
 
+(* ---- extension: further categories of shell errors at composed positions ---- *)
+
+(* The table of consequences (Spec.v [xerr_class]: which error ends the shell
+   execution environment, with which status, and which only fails the command;
+   [xwalk]: what that means at a position: exempt contexts, environments of
+   their own, `set -e` on or off): for every category, with and without the
+   `command` prefix, errexit on and off, with and without an EXIT trap, at
+   top level, at every position and at every nesting of two or three positions, the
+   model's run of the script is the one the table describes: `probe 2` after
+   the victim runs exactly if the victim does not end its environment, `probe
+   3` at the end exactly if the script is not aborted, the exit status is that
+   of the failing command / of the error, the EXIT trap runs exactly once and
+   sees that status.  (Full statement: for every list of positions.  Proved by
+   evaluation, hence the bound on the nesting; deeper nestings are compared
+   with the real shell on every run, and the lowered scripts are programs of
+   the shared model, for which errexit_dynamic_eq_lexical and
+   abort_iff_documented hold at every depth.) *)
+Theorem xerr_table_positions_depth3_partial : forall x, (length (x_pos x) <= 3)%nat ->
+  exists o, model_run 200 (xscript x) = Some o /\ xoracle x o = true /\ wf_prog (xscript x) = true.
+Proof. exact xtable_lemma. Qed.
+
+(* ... and so is the specification's. *)
+Theorem xerr_table_spec_depth3_partial : forall x, (length (x_pos x) <= 3)%nat ->
+  exists o, spec_result (xscript x) o /\ xoracle x o = true.
+Proof. exact xtable_spec_lemma. Qed.
+
+(* The handlers themselves, for every runtime stack and every state (in which
+   `false` is not a function, v2 is unset and v9 is not read-only): the command that stands for the
+   category either ends the shell execution environment (an Interrupt or Exit
+   divert; the exit status is the error's) or completes with the table's
+   status and is subject to errexit like any failing command; it records
+   nothing in the trace. *)
+Theorem xerr_handler_table : forall e viac stk s n, xstate_ok s ->
+  exists r s1, exec_cmd (S (S n)) stk (xlower e viac) s = Some (r, s1) /\
+    trace s1 = trace s /\
+    match xerr_class e viac with
+    | XFatal st => ends_environment r = true /\ status (apply_result r s1) = st
+    | XSoft st => status s1 = st /\ r = apply_errexit stk s1
+    end.
+Proof. exact xhandler_lemma. Qed.
+
+Example xerr_handler_table_not_vacuous : xstate_ok init_state.
+Proof. repeat split; reflexivity. Qed.
+
+(* The EXIT trap sees the exit status and leaves it: a script whose first line
+   sets `trap 'probe K ST' EXIT` ends with the status it had when its last
+   command / the divert ended it (for errexit: the status of the failing
+   command), whatever the trap action's own status ST is, and the trap action
+   ran with `$?` = that status. *)
+Theorem exit_trap_sees_exit_status : forall k st p n r s1 o,
+  forallb (plain_line k) p = true ->
+  run_lines n (trap_line k st :: p) false init_state = Some (r, s1) ->
+  model_run n (trap_line k st :: p) = Some o ->
+  snd o = status (apply_result r s1) /\ In (k, snd o) (fst o).
+Proof. exact exit_trap_status_lemma. Qed.
+
+(* non-vacuity: `set -e; ( ! { shift 5; probe 2; } )`: the subshell ends with 1, errexit ends the script *)
+Example xerr_table_not_vacuous :
+  model_run 200 (xscript (mkX XShiftTooMany false true true [PSubshell; PNeg]))
+  = Some ([(1, 0); (9999, 1)]%N, 1%N).
+Proof. reflexivity. Qed.
+
 (* ---- non-vacuity ---- *)
 
 (* trap 'probe 9 7' EXIT; set -e; (probe 1 3); probe 2  -- the subshell fails,
@@ -106,6 +168,11 @@ Example errexit_abort_not_vacuous :
   apply_errexit [FLoop; FSubshell] (set_errexit true (set_status 3 init_state)) = Brk (DExit None).
 Proof. reflexivity. Qed.
 
+Example exit_trap_sees_exit_status_not_vacuous :
+  exists r s1, run_lines 40 (trap_line 9 7 :: ex_abort) false init_state = Some (r, s1)
+               /\ status (apply_result r s1) = 3%N.
+Proof. eexists; eexists; split; reflexivity. Qed.
+
 Print Assumptions errexit_test_eq_flag.
 Print Assumptions errexit_dynamic_eq_lexical.
 Print Assumptions abort_iff_documented.
@@ -116,3 +183,7 @@ Print Assumptions nothing_runs_after_abort_in_list.
 Print Assumptions nothing_runs_after_abort.
 Print Assumptions abort_status.
 Print Assumptions exit_trap_exactly_once.
+Print Assumptions xerr_table_positions_depth3_partial.
+Print Assumptions xerr_table_spec_depth3_partial.
+Print Assumptions exit_trap_sees_exit_status.
+Print Assumptions xerr_handler_table.
